@@ -112,6 +112,9 @@ def check(run):
         run.check('operation_aborted' not in a and 'error_code{}' in a.replace(' ', ''), 'R4', 'fire-success', S + '::run', rn.loc(f), 'run() fires with ' + a, 'fires with success')
     import p12
     p12.remove_timer_rule(run)
+    run.clause('a timer whose expiry has passed fires at the current time: the clock is never advanced by a negative duration (shared with C02)')
+    import p02
+    p02.nonneg_advance_rule(run)
     run.floor('R4', 14)
     run.floor('R2', 10)
 
